@@ -1,6 +1,7 @@
 package checks
 
 import (
+	"sync/atomic"
 	"bytes"
 	"encoding/binary"
 	"fmt"
@@ -431,7 +432,16 @@ type hostileOutcome struct {
 	dur  time.Duration
 }
 
+// hostileHangs counts calls that did not return: each leaves a spinning goroutine behind, so after a handful (each of them
+// reported) the remaining calls are skipped - the check has its verdict and must itself come to an end.
+var hostileHangs atomic.Int32
+
+const maxHostileHangs = 6
+
 func runHostile(f func() error) (o hostileOutcome) {
+	if hostileHangs.Load() >= maxHostileHangs {
+		return hostileOutcome{kind: "skipped"}
+	}
 	done := make(chan hostileOutcome, 1)
 	t0 := time.Now()
 	go func() {
@@ -452,6 +462,7 @@ func runHostile(f func() error) (o hostileOutcome) {
 	case o = <-done:
 	case <-time.After(30 * time.Second):
 		o = hostileOutcome{kind: "timeout"}
+		hostileHangs.Add(1)
 	}
 	o.dur = time.Since(t0)
 	return
